@@ -413,5 +413,10 @@ def run(ctx):
     ctx.do(_c16.r16_5)  # COPY/MOVE report the UID of the key they read, looked up while it is read
     from . import c15 as _c15b
     ctx.do(_c15b.r15_4)  # a UID set denotes the UIDs it names, nothing else
+    ctx.do(_c15b.r15_5)
+    from . import c12 as _c12b
+    ctx.do(_c12b.r12_8)  # two mailboxes never share (or lose) the row that holds their UIDs
+    from . import c01 as _c01g
+    ctx.do(_c01g.r1_2)  # a number sent before an EXPUNGE was announced is not resolved against the list after it
     for k, v in PAIR_EXEMPT.items():
         ctx.trust(f"frozen pairing exemption: {k} - {v}")
